@@ -574,10 +574,22 @@ mutual
     | c :: cs => max (sdepth c) (sdepths cs)
 end
 
+/-- not a static call -/
+def noCall : Card → Bool
+  | .call _ _ => false
+  | _ => true
+
+theorem noCall_expr {e : Card} (h : isExpr e = true) : noCall e = true := by
+  cases e <;> first | rfl | (simp [isExpr] at h)
+
 mutual
-  /-- no `While` inside -/
+  /-- no `While`, `Repeat` or static call inside -/
   def loopFree : Card → Bool
     | .bin .while _ _ => false
+    | .repeat _ _ _ => false
+    | .setVar _ e => noCall e
+    | .setGlobalVar _ e => noCall e
+    | .un _ e => noCall e
     | .bin _ _ b => loopFree b
     | .tri _ _ t e => loopFree t && loopFree e
     | .composite _ cs => loopFrees cs
@@ -592,6 +604,7 @@ mutual
   def snames : Card → List String
     | .setGlobalVar n _ => [n]
     | .bin _ _ b => snames b
+    | .repeat _ _ b => snames b
     | .tri _ _ t e => snames t ++ snames e
     | .composite _ cs => snamess cs
     | _ => []
@@ -1525,7 +1538,7 @@ theorem isF0Stmts_isStmts : ∀ (cs : List Card), isF0Stmts cs = true → isStmt
     simp only [isF0Stmts, Bool.and_eq_true] at h
     obtain ⟨h1, h2⟩ := isF0Stmts_isStmts cs h.2
     simp only [isStmts, isStmt, loopFrees, loopFree, Bool.and_eq_true]
-    exact ⟨⟨⟨h.1.1, h.1.2⟩, h1⟩, ⟨trivial, h2⟩⟩
+    exact ⟨⟨⟨h.1.1, h.1.2⟩, h1⟩, ⟨noCall_expr h.1.2, h2⟩⟩
   | .comment _ :: cs => fun h => by
     simp only [isF0Stmts] at h
     obtain ⟨h1, h2⟩ := isF0Stmts_isStmts cs h
